@@ -90,7 +90,13 @@ def gen(rng, tier, index):
         ux = float(2.0 ** int(rng.integers(-30, 20)))
         uy = ux if kind == "planted" else float(2.0 ** int(rng.integers(-40, 20)))
         X, y = X * ux, y * uy
+    xint = None
+    if index % 7 == 3 and kind != "planted" and ux == 1.0 and not many:
+        # whole-number features (counts) handed over with an integer dtype, next to real-valued targets
+        X = np.round(X * 8.0)
+        xint = ("int64", "int32")[index % 2]
     return {
+        "xint": xint,
         "edge": edge,
         "many": bool(many),
         "near_identity": bool(kind == "planted" and A is not None and p == f and f > 1 and float(np.abs(A - np.eye(f)).max()) < 1e-4),
@@ -185,7 +191,11 @@ def run(case, j):
         _AbortableMixin._armed[0] = True
         forms.rejected(j, "fit aborted inside the linear estimator", est.fit, X, yin)
         _AbortableMixin._armed[0] = False
-    j.lib("fit", est.fit, X, yin)
+    Xfit = X
+    if case.get("xint") and np.all(X == np.round(X)):
+        Xfit = forms.as_integer(X, case["xint"])
+        j.note("integer_typed_features_with_real_targets")
+    j.lib("fit", est.fit, Xfit, yin)
     est = forms.carry(est, case.get("carry", "same"), j)  # what predicts afterwards may be a copy of what was fitted
     Om = np.asarray(est.coef_).T  # predict(x) = x_(padded) @ Om
     ny = max(float(np.linalg.norm(y)), 1e-300)
